@@ -120,7 +120,7 @@ var keyedCols = map[string]bool{
 var singleCols = map[string]bool{
 	"REQUEST_METHOD": true, "REQUEST_URI": true, "REQUEST_FILENAME": true, "REQUEST_PROTOCOL": true, "RESPONSE_STATUS": true,
 	"MATCHED_VAR": true, "MATCHED_VAR_NAME": true, "QUERY_STRING": true, "HIGHEST_SEVERITY": true, "REQUEST_LINE": true,
-	"REQUEST_URI_RAW": true, "REQUEST_BASENAME": true,
+	"REQUEST_URI_RAW": true, "REQUEST_BASENAME": true, "ARGS_COMBINED_SIZE": true,
 }
 
 func names(kvs []KV) []KV {
@@ -173,6 +173,13 @@ func (m *model) single(v string) string {
 		return m.mvarName
 	case "HIGHEST_SEVERITY":
 		return strconv.Itoa(m.res.HS)
+	case "ARGS_COMBINED_SIZE":
+		// combined size of all request parameters: names and values as received
+		n := 0
+		for _, kv := range m.entries("ARGS") {
+			n += len(kv.K) + len(kv.V)
+		}
+		return strconv.Itoa(n)
 	}
 	return m.singles[v]
 }
@@ -545,7 +552,7 @@ func (m *model) setvar(sv Setvar) {
 		m.lvlAssign[key]["="+val] = true
 	case "+", "-":
 		n, ok := canonicalInt(val)
-		if !ok || n < 0 {
+		if !ok {
 			m.amb("setvar arithmetic with a non-integer operand")
 			return
 		}
